@@ -341,6 +341,36 @@ def check_refuse(rep, db, f, inst):
     except Inconclusive as ex:
         rep.inconclusive(rule, site(f), str(ex), inst)
         return
+    # a FREE slot is never refused: taking slot I may depend on slot I being free and on the slots before it being taken - on nothing
+    # else in the key table (e.g. not on the LAST slot being free: after a release in the middle that refuses although a slot is free)
+    from .c12 import slot_layout, idx_store
+    from .ops import strip_casts as _sc
+    lay = slot_layout(db, f)
+    unrd = lambda t: t[1] if isinstance(t, tuple) and t[:1] == ("rd",) else t
+    for p in ps:
+        taken = [idx_store(e, lay, "key") for e in p.events if idx_store(e, lay, "key") is not None]
+        if len(taken) != 1 or not (isinstance(taken[0], tuple) and taken[0][:1] == ("c",)):
+            continue
+        I = taken[0][1]
+        for e in p.events:
+            if e.kind != "ASSUME":
+                continue
+            todo = [e.a]
+            while todo:
+                c = todo.pop()
+                if not isinstance(c, tuple):
+                    continue
+                if c[:1] in (("and",), ("or",), ("not",)):
+                    todo += list(c[1:])
+                    continue
+                if c[:1] != ("cmp",) or len(c) != 4:
+                    continue
+                for side in (c[2], c[3]):
+                    J = lay.index_of("key", _sc(unrd(side)))
+                    if isinstance(J, tuple) and J[:1] == ("c",) and J[1] > I:
+                        rep.violation(rule, site(f) + " [free slot refused]", "taking slot %d also requires %s (a condition on slot %d): with that slot occupied a registration is refused although slot %d is free - "
+                                      "a released function cannot be registered again" % (I, fmt(c)[:70], J[1], I), e.loc or f["loc"], inst)
+                        return
     for p in ps:
         r = p.retval
         t = truthy(r) if r is not None else C(0)
